@@ -39,17 +39,17 @@ CLAIMS = {
         note="Not a proof; bash execution not covered.",
         design="§7 C09", tech="Kani full-domain harnesses on the extracted symbol type Inp (equality is structural; same-text literals are one symbol: fails = known finding D10); bounded exact determinism / language comparison on the real automaton (stand-in)", cat="proof"),
     "C11": dict(
-        text="Exhaustive check over the property's own finite quantifier (3 names x 32 definition subsets x 3 reference positions x 4 shells = 1152 grammars) that the compiled automaton expects exactly the command the lookup order prescribes.",
-        note="Finite exhaustive enumeration of the stated quantifier on the real pipeline; get_specializations / specialize_nonterminals not yet under Verus contracts; emitted script bodies not covered.",
-        design="§7 C11", tech="exhaustive enumeration of the property's finite quantifier on the real pipeline", cat="exploration"),
+        text="Verus proves on the real check.rs::specialize_nonterminals (after rewrite R3 of its three .map().collect() closures into loops): at a nonterminal reference the lookup order is target-shell definition, then built-in, then plain command fallback, with zsh_compadd set only for zsh and level/span kept; every node kind leaves the arena a well-formed extension of the old one and cannot reach the unreachable!() arm given the no-DistributiveDescription precondition. make_builtin_specializations: the table's domain is exactly PATH and DIRECTORY and the directory command differs from the path command for every shell. The property-level statement is decided by exhaustive enumeration of the property's own finite quantifier (3 names x 32 definition subsets x 3 reference positions x 4 shells = 1152 grammars) on the real pipeline.",
+        note="Proved per node, not per tree (the tree-level 'every reference replaced' is the exhaustive stand-in). Assumed: UstrMap/Ustr shims, derived Clone of Expr, rules R3/R10/R7. get_specializations and the from_grammar glue (incl. 'plain definition overrides the built-in') are bounded only; emitted script bodies not covered; termination unverified.",
+        design="§7 C11", tech="Verus contracts on the extracted specialize_nonterminals / make_builtin_specializations; exhaustive enumeration of the property's finite quantifier on the real pipeline", cat="proof"),
     "C13": dict(
         text="Verus proves that HumanSpan::from_range / from_machine build well-formed spans (start = position of `before`; end on the same line; multi-line constructs end inside their first line) and that the *_machine accessors cannot underflow. Bounded stand-in: every span stored by the real parser for the corpus re-laid-out over several lines lies inside its source line.",
         note="nom_locate is a shim; the nom parser functions are not under contract (bounded only); diagnostic positions after escapes (D11) not yet checked.",
         design="§7 C13", tech="Verus contracts on the span constructors/accessors; bounded span stand-in on the real parser", cat="proof"),
     "C15": dict(
-        text="Bounded stand-in: undefined / unused-definition / unused-specialisation sets returned by the real ValidGrammar::from_grammar equal the sets the property prescribes, for all 2-name configurations (7 definition kinds x 3 reference positions each) and seeded random 3-name ones incl. `_`, PATH, DIRECTORY, x 4 shells.",
-        note="Not a proof; warning printing in main.rs not covered.",
-        design="§7 C15", tech="bounded set comparison on the real pipeline (stand-in)", cat="exploration"),
+        text="Verus proves the bookkeeping clause of specialize_nonterminals at a nonterminal reference: the name leaves the unused-definitions map and its target-shell definition is marked used, nothing else changes. Bounded stand-in: undefined / unused-definition / unused-specialisation sets returned by the real ValidGrammar::from_grammar equal the sets the property prescribes, for all 2-name configurations (7 definition kinds x 3 reference positions each) and seeded random 3-name ones incl. `_`, PATH, DIRECTORY, x 4 shells.",
+        note="Only one bookkeeping function is under contract (per node); resolve_nonterminals, get_nonterm_refs and the glue are bounded only; warning printing in main.rs not covered.",
+        design="§7 C15", tech="Verus contract (used-marking clause) on the extracted specialize_nonterminals; bounded set comparison on the real pipeline", cat="proof"),
     "C16": dict(
         text="Unbounded proof (Verus) that regex::make_dot_string_constant produces a DOT double-quoted ID that decodes to the input for every string; bounded replay twin.",
         note="Only the string-constant function is under contract; the inline label formatting of to_dot is not (see DESIGN §7 C16).",
